@@ -299,3 +299,539 @@ func expandedHelper(p *Prog, fn *ssa.Function) bool {
 	sites, closed := repoCallSites(p, fn)
 	return closed && len(sites) == 0
 }
+
+// ---------------------------------------------------------------------------
+// Struct-valued locals. `best := struct{species *Species; compat float64; found bool}{...}` keeps three
+// variables in one local that go/ssa does not promote to registers: its fields are read and written
+// through FieldAddr of one Alloc. When the address of such a local is used for nothing but reading and
+// writing it (whole or field by field), every field is an ordinary private variable, and along a given
+// block sequence its value at any point is the value of the last store before that point. The helpers
+// below give the rules the same facts for such a field as they get for an SSA-promoted local: the value
+// it holds at a point of a path, its value when a loop is entered, whether two reads see the same value.
+
+// cell is one field of a struct-valued local.
+type localCell struct {
+	a *ssa.Alloc
+	f int
+}
+
+func (c localCell) typ() types.Type {
+	st, ok := deref(c.a.Type()).Underlying().(*types.Struct)
+	if !ok || c.f >= st.NumFields() {
+		return nil
+	}
+	return st.Field(c.f).Type()
+}
+
+// structLocals lists the allocations of fn that hold a struct whose address never leaves the function and is
+// never aliased: every use of the address is a field address that is only loaded from / stored to, a load
+// of the whole struct, or a store of a whole struct into it.
+func structLocals(fn *ssa.Function) map[*ssa.Alloc]bool {
+	out := map[*ssa.Alloc]bool{}
+	Instrs(fn, func(_ *ssa.BasicBlock, _ int, in ssa.Instruction) {
+		a, ok := in.(*ssa.Alloc)
+		if !ok || a.Referrers() == nil {
+			return
+		}
+		if _, isStruct := deref(a.Type()).Underlying().(*types.Struct); !isStruct {
+			return
+		}
+		private := true
+		for _, ref := range *a.Referrers() {
+			switch x := ref.(type) {
+			case *ssa.FieldAddr:
+				if x.Referrers() == nil {
+					private = false
+					break
+				}
+				for _, r2 := range *x.Referrers() {
+					switch y := r2.(type) {
+					case *ssa.UnOp:
+						private = private && y.Op == token.MUL
+					case *ssa.Store:
+						private = private && y.Addr == ssa.Value(x) && y.Val != ssa.Value(x)
+					case *ssa.DebugRef:
+					default:
+						private = false
+					}
+				}
+			case *ssa.Store:
+				private = private && x.Addr == ssa.Value(a) && x.Val != ssa.Value(a)
+			case *ssa.UnOp:
+				private = private && x.Op == token.MUL
+			case *ssa.DebugRef:
+			default:
+				private = false
+			}
+		}
+		if private {
+			out[a] = true
+		}
+	})
+	return out
+}
+
+// cellOfAddr: addr is the address of a field of a tracked struct-valued local.
+func cellOfAddr(locals map[*ssa.Alloc]bool, addr ssa.Value) (localCell, bool) {
+	fa, ok := addr.(*ssa.FieldAddr)
+	if !ok {
+		return localCell{}, false
+	}
+	a, ok := fa.X.(*ssa.Alloc)
+	if !ok || !locals[a] {
+		return localCell{}, false
+	}
+	return localCell{a, fa.Field}, true
+}
+
+// cellOfLoad: v reads a field of a tracked struct-valued local.
+func cellOfLoad(locals map[*ssa.Alloc]bool, v ssa.Value) (localCell, bool) {
+	u, ok := v.(*ssa.UnOp)
+	if !ok || u.Op != token.MUL {
+		return localCell{}, false
+	}
+	return cellOfAddr(locals, u.X)
+}
+
+// writesCell: the instruction (re)defines the cell: a store to the field, a store of a whole struct into the
+// local, or the local coming into being (zeroed) again.
+func writesCell(locals map[*ssa.Alloc]bool, in ssa.Instruction, c localCell) bool {
+	switch x := in.(type) {
+	case *ssa.Store:
+		if cc, ok := cellOfAddr(locals, x.Addr); ok && cc == c {
+			return true
+		}
+		return x.Addr == ssa.Value(c.a)
+	case *ssa.Alloc:
+		return x == c.a
+	}
+	return false
+}
+
+// zeroScalarConst: the zero value of a scalar type as an SSA constant (nil for types it is not needed for).
+func zeroScalarConst(t types.Type) ssa.Value {
+	if t == nil {
+		return nil
+	}
+	switch u := t.Underlying().(type) {
+	case *types.Pointer, *types.Slice, *types.Map, *types.Interface, *types.Chan, *types.Signature:
+		return ssa.NewConst(nil, t)
+	case *types.Basic:
+		switch {
+		case u.Info()&types.IsBoolean != 0:
+			return ssa.NewConst(constant.MakeBool(false), t)
+		case u.Info()&types.IsInteger != 0:
+			return ssa.NewConst(constant.MakeInt64(0), t)
+		case u.Info()&types.IsFloat != 0:
+			return ssa.NewConst(constant.MakeFloat64(0), t)
+		case u.Info()&types.IsString != 0:
+			return ssa.NewConst(constant.MakeString(""), t)
+		}
+	}
+	return nil
+}
+
+// localPathSeq is the instruction sequence of a block sequence (one execution order).
+type localPathSeq struct {
+	fn     *ssa.Function
+	locals map[*ssa.Alloc]bool
+	ins    []ssa.Instruction
+	at     map[ssa.Instruction][]int
+}
+
+func newLocalPathSeq(fn *ssa.Function, locals map[*ssa.Alloc]bool, blocks []*ssa.BasicBlock) *localPathSeq {
+	s := &localPathSeq{fn: fn, locals: locals, at: map[ssa.Instruction][]int{}}
+	for _, b := range blocks {
+		for _, in := range b.Instrs {
+			s.at[in] = append(s.at[in], len(s.ins))
+			s.ins = append(s.ins, in)
+		}
+	}
+	return s
+}
+
+// posOf: the one position of an instruction that executes exactly once on the path (-1 otherwise).
+func (s *localPathSeq) posOf(v ssa.Value) int {
+	in, ok := v.(ssa.Instruction)
+	if !ok || len(s.at[in]) != 1 {
+		return -1
+	}
+	return s.at[in][0]
+}
+
+// localCellVal is what a cell holds at a point of a path.
+type localCellVal struct {
+	V     ssa.Value // the value stored last (a constant for a field never written since the local was created)
+	Start bool      // not written on the path before that point: the value the cell had when the path began
+}
+
+// before: the value of cell c just before position k of the path. ok=false: written in a way that is not understood.
+func (s *localPathSeq) before(c localCell, k int, depth int) (cv localCellVal, ok bool) {
+	if depth > 8 {
+		return localCellVal{}, false
+	}
+	if k > len(s.ins) {
+		k = len(s.ins)
+	}
+	for i := k - 1; i >= 0; i-- {
+		switch x := s.ins[i].(type) {
+		case *ssa.Alloc:
+			if x == c.a {
+				z := zeroScalarConst(c.typ())
+				return localCellVal{V: z}, z != nil
+			}
+		case *ssa.Store:
+			if cc, isCell := cellOfAddr(s.locals, x.Addr); isCell && cc == c {
+				return s.resolve(x.Val, i, depth+1)
+			}
+			if x.Addr != ssa.Value(c.a) {
+				continue
+			}
+			// a whole struct stored into the local: the field of the struct stored
+			switch y := x.Val.(type) {
+			case *ssa.Const:
+				z := zeroScalarConst(c.typ())
+				return localCellVal{V: z}, z != nil
+			case *ssa.UnOp:
+				src, isLocal := y.X.(*ssa.Alloc)
+				if y.Op != token.MUL || !isLocal || !s.locals[src] || !types.Identical(deref(src.Type()), deref(c.a.Type())) {
+					return localCellVal{}, false
+				}
+				j := -1
+				for _, q := range s.at[y] {
+					if q < i && q > j {
+						j = q
+					}
+				}
+				if j < 0 {
+					return localCellVal{}, false
+				}
+				cv, ok := s.before(localCell{src, c.f}, j, depth+1)
+				if ok && cv.Start {
+					return localCellVal{}, false // the source local's state at the start of the path says nothing about c
+				}
+				return cv, ok
+			}
+			return localCellVal{}, false
+		}
+	}
+	return localCellVal{Start: true}, true
+}
+
+// resolve: the value v (used at position k) stands for: a read of a cell is replaced by what the cell held.
+func (s *localPathSeq) resolve(v ssa.Value, k int, depth int) (localCellVal, bool) {
+	c, isLoad := cellOfLoad(s.locals, v)
+	if !isLoad {
+		return localCellVal{V: v}, true
+	}
+	j := -1
+	for _, q := range s.at[v.(ssa.Instruction)] {
+		if q <= k && q > j {
+			j = q
+		}
+	}
+	if j < 0 {
+		return localCellVal{}, false // read before the path began
+	}
+	cv, ok := s.before(c, j, depth+1)
+	if !ok {
+		return localCellVal{}, false
+	}
+	if cv.Start {
+		// the start value of another cell (or of the same one: then nothing changes, which the caller sees as V == load of c)
+		return localCellVal{V: v, Start: true}, true
+	}
+	return cv, true
+}
+
+// sameValue: a and b are the same value on this path: the same SSA value, or two reads of the same cell with
+// no write to the cell between them - neither on the path nor in a loop nested in `within` that the path
+// segment passes through (the path shows such a loop at most once, an execution may go round it many times).
+func (s *localPathSeq) sameValue(a, b ssa.Value, loops []*Loop, within *Loop) bool {
+	if a == b {
+		return true
+	}
+	ca, okA := cellOfLoad(s.locals, a)
+	cb, okB := cellOfLoad(s.locals, b)
+	if !okA || !okB || ca != cb {
+		return false
+	}
+	i, j := s.posOf(a), s.posOf(b)
+	if i < 0 || j < 0 {
+		return false
+	}
+	if i > j {
+		i, j = j, i
+	}
+	for k := i; k <= j; k++ {
+		if writesCell(s.locals, s.ins[k], ca) {
+			return false
+		}
+		blk := s.ins[k].Block()
+		for _, l := range loops {
+			if !l.Blocks[blk] || (within != nil && l.Blocks[within.Header]) {
+				continue // not around this point, or `within` itself / a loop around it
+			}
+			for lb := range l.Blocks {
+				for _, in := range lb.Instrs {
+					if writesCell(s.locals, in, ca) {
+						return false
+					}
+				}
+			}
+		}
+	}
+	return true
+}
+
+// scanVar is a variable carried around a loop: an SSA-promoted local (a phi of the loop header) or a field of
+// a struct-valued local that is written inside the loop.
+type scanVar struct {
+	phi  *ssa.Phi
+	cell *localCell
+}
+
+func (v *scanVar) typ() types.Type {
+	if v.phi != nil {
+		return v.phi.Type()
+	}
+	return v.cell.typ()
+}
+
+// loopCells: the cells written inside loop l whose local is created outside it.
+func loopCells(fn *ssa.Function, locals map[*ssa.Alloc]bool, l *Loop) []localCell {
+	var out []localCell
+	seen := map[localCell]bool{}
+	for _, b := range fn.Blocks {
+		if !l.Blocks[b] {
+			continue
+		}
+		for _, in := range b.Instrs {
+			st, ok := in.(*ssa.Store)
+			if !ok {
+				continue
+			}
+			if c, isCell := cellOfAddr(locals, st.Addr); isCell && !seen[c] && !l.Blocks[c.a.Block()] {
+				seen[c] = true
+				out = append(out, c)
+			}
+		}
+	}
+	return out
+}
+
+// initValues: the values the variable can have when loop l is entered.
+func (v *scanVar) initValues(fn *ssa.Function, locals map[*ssa.Alloc]bool, l *Loop) (vals []ssa.Value, ok bool) {
+	if v.phi != nil {
+		for i, e := range v.phi.Edges {
+			if !l.Blocks[v.phi.Block().Preds[i]] {
+				vals = append(vals, e)
+			}
+		}
+		return vals, len(vals) > 0
+	}
+	// the straight-line code in front of the loop: the entering predecessor and its chain of single predecessors
+	for _, pr := range l.Header.Preds {
+		if l.Blocks[pr] {
+			continue
+		}
+		chain := []*ssa.BasicBlock{pr}
+		for n := 0; n < 64 && len(chain[0].Preds) == 1 && !l.Blocks[chain[0].Preds[0]]; n++ {
+			chain = append([]*ssa.BasicBlock{chain[0].Preds[0]}, chain...)
+		}
+		s := newLocalPathSeq(fn, locals, chain)
+		cv, known := s.before(*v.cell, len(s.ins), 0)
+		if !known || cv.Start || cv.V == nil {
+			return nil, false
+		}
+		vals = append(vals, cv.V)
+	}
+	return vals, len(vals) > 0
+}
+
+// next: the value the variable has at the end of the iteration path (seq = the path without the closing header
+// revisit). updated=false: the variable is left as it was. known=false: written in a way that is not understood.
+func (v *scanVar) next(ip *IterPath, s *localPathSeq) (val ssa.Value, updated, known bool) {
+	if v.phi != nil {
+		n := ip.NextValue(v.phi)
+		return n, n != ssa.Value(v.phi), n != nil
+	}
+	cv, ok := s.before(*v.cell, len(s.ins), 0)
+	if !ok {
+		return nil, true, false
+	}
+	if cv.Start {
+		if cv.V != nil {
+			// overwritten with the start value of some cell: unchanged only when it is this one
+			if c, isLoad := cellOfLoad(s.locals, cv.V); isLoad && c == *v.cell {
+				return cv.V, false, true
+			}
+			return cv.V, true, false
+		}
+		return nil, false, true
+	}
+	return cv.V, true, true
+}
+
+// isCurrent: x is the value the variable has at the start of the iteration (the running value the step compares with).
+func (v *scanVar) isCurrent(x ssa.Value, s *localPathSeq) bool {
+	if v.phi != nil {
+		return x == ssa.Value(v.phi)
+	}
+	c, isLoad := cellOfLoad(s.locals, x)
+	if !isLoad || c != *v.cell {
+		return false
+	}
+	k := s.posOf(x)
+	if k < 0 {
+		return false
+	}
+	cv, ok := s.before(c, k, 0)
+	return ok && cv.Start && cv.V == nil
+}
+
+// ---------------------------------------------------------------------------
+// Founding a species: the pinned tree does it in createFirstSpecies(pop, organism). A refactoring may turn
+// that function into a method of Population, or write its body in place in speciate (by hand, or - for a
+// function the pinned tree does not have, such as the method form - through the source normalisation, which
+// expands every call of it). The rules look for the founding itself: a fresh species that lists the
+// organism, is pointed back to by it, is appended to the population and gets LastSpecies+1 as its id.
+
+// foundingFunc resolves the function that founds a species: createFirstSpecies, or the same as a method of
+// Population. nil: there is none that anything calls (founding is written in place, see foundingOnPath).
+func foundingFunc(p *Prog) *ssa.Function {
+	if f := p.FuncOpt(PkgG, "createFirstSpecies"); f != nil {
+		return f
+	}
+	if f := p.FuncOpt(PkgG, "Population.createFirstSpecies"); f != nil && !expandedHelper(p, f) {
+		return f
+	}
+	return nil
+}
+
+// isPopSpecies: t is the Species list of the population that is parameter 0 / the receiver.
+func isPopSpecies(t *Term) bool {
+	return t != nil && t.Op == "field" && t.Name == "Species" && len(t.Args) == 1 && isParamIdx(t.Args[0], 0)
+}
+
+// isSpeciateOrg: t is an element of the organisms handed to speciate (parameter 2).
+func isSpeciateOrg(t *Term) bool {
+	return t != nil && t.Op == "elem" && isParamIdx(t.Args[0], 2)
+}
+
+// foundingFacts: what one pass over an organism (one iteration path of speciate's organism loop) does with the
+// fresh species Sp it creates.
+type foundingFacts struct {
+	Sp                    ssa.Value
+	Inc                   *ssa.Store // the store recv.LastSpecies = recv.LastSpecies + 1 on the path
+	NLast                 int        // stores to LastSpecies on the path
+	IncOK                 bool       // exactly one, an increment by one of the receiver's counter, executed once
+	Once                  bool       // creation, listing and back pointer execute exactly once per pass (not in a nested loop)
+	IdOK, After           bool
+	IdDesc                string
+	Novel, Age            bool
+	Why                   string
+	Appended, Added, Back bool
+}
+
+// foundingOnPath examines the founding written in place on one iteration path of loop `outer` of fn (speciate):
+// the population is the receiver, the organism an element of parameter 2.
+func foundingOnPath(p *Prog, sums *Summaries, fn *ssa.Function, tm *Termer, loops []*Loop, outer *Loop, ip *IterPath, sp ssa.Value) *foundingFacts {
+	ff := &foundingFacts{Sp: sp, IdDesc: "?"}
+	body := ip.Blocks
+	if ip.End == "back" {
+		body = body[:len(body)-1]
+	}
+	seq := newLocalPathSeq(fn, nil, body)
+	once := func(v interface{}) bool {
+		in, ok := v.(ssa.Instruction)
+		if !ok || len(seq.at[in]) != 1 {
+			return false
+		}
+		l := InnermostLoop(loops, in.Block())
+		return l != nil && l.Header == outer.Header
+	}
+	last := p.Field(PkgG, "Population", "LastSpecies")
+	popSpecies := p.Field(PkgG, "Population", "Species")
+	backF := p.Field(PkgG, "Organism", "Species")
+	ff.Once = once(sp)
+	var incLoad *ssa.UnOp
+	seenStore := map[*ssa.Store]bool{}
+	for _, in := range seq.ins {
+		if m, _ := memberWrite(p, in); m != nil && m.Species == sp && isSpeciateOrg(tm.Of(m.Org)) {
+			ff.Added = true
+			ff.Once = ff.Once && once(in)
+		}
+		st, ok := in.(*ssa.Store)
+		if !ok || seenStore[st] {
+			continue
+		}
+		seenStore[st] = true
+		switch StoredField(st) {
+		case last:
+			ff.NLast += len(seq.at[in])
+			if ld := plusOneOfField(tm, st.Val, 0, last); ld != nil && isParamIdx(tm.Of(st.Addr.(*ssa.FieldAddr).X), 0) && once(st) {
+				ff.Inc, incLoad = st, ld
+			}
+		case popSpecies:
+			if base, elems, ok := appendCall(st.Val); ok && len(elems) == 1 && elems[0] == sp && isPopSpecies(tm.Of(base)) && isParamIdx(tm.Of(st.Addr.(*ssa.FieldAddr).X), 0) {
+				ff.Appended = true
+			}
+		case backF:
+			if st.Val == sp && isSpeciateOrg(tm.Of(st.Addr.(*ssa.FieldAddr).X)) {
+				ff.Back = true
+				ff.Once = ff.Once && once(st)
+			}
+		}
+	}
+	// the counter is read, incremented and written back once, with nothing writing it in between (this path has one store to it;
+	// that no other function writes it is a separate obligation)
+	ff.IncOK = ff.Inc != nil && ff.NLast == 1 && seq.posOf(incLoad) >= 0 && seq.posOf(incLoad) < seq.at[ff.Inc][0]
+	// the state of the new species when the pass over the organism ends
+	end := body[len(body)-1].Instrs[len(body[len(body)-1].Instrs)-1]
+	st := sums.ObjectAt(fn, sp, end)
+	if st.Why != "" {
+		ff.Why = st.Why
+		return ff
+	}
+	idF, novF, ageF := p.Field(PkgG, "Species", "Id"), p.Field(PkgG, "Species", "IsNovel"), p.Field(PkgG, "Species", "Age")
+	if id := st.Fields[idF]; id != nil {
+		ff.IdDesc = id.String()
+		if ff.IncOK && id.Op != "phi" && id.V != nil {
+			incPos := seq.at[ff.Inc][0]
+			switch {
+			case id.V == ff.Inc.Val:
+				// the very value stored into LastSpecies
+				ff.IdOK, ff.After = true, true
+			case loadOfParamField(tm, id.V, 0, last) != nil:
+				// LastSpecies read back after the increment, the only store to it on this path
+				k := seq.posOf(id.V)
+				ff.After = k > incPos
+				ff.IdOK = ff.After
+			default:
+				// LastSpecies + 1 computed again from a read that precedes the increment
+				if ld := plusOneOfField(tm, id.V, 0, last); ld != nil {
+					k := seq.posOf(ld)
+					ff.After = k >= 0 && k < incPos
+					ff.IdOK = ff.After
+				}
+			}
+		}
+	}
+	nov := st.Fields[novF]
+	ff.Novel = nov != nil && nov.String() == "true"
+	age := st.Fields[ageF]
+	ff.Age = age != nil && age.String() == "1" && st.Fresh
+	return ff
+}
+
+// freshOnPath: the fresh species created on the path.
+func freshOnPath(ip *IterPath, all []ssa.Value) []ssa.Value {
+	var out []ssa.Value
+	for _, v := range all {
+		if in, ok := v.(ssa.Instruction); ok && ip.OnPath(in) {
+			out = append(out, v)
+		}
+	}
+	return out
+}
